@@ -66,11 +66,11 @@ CHECKS = {
    note="flag/os/bufio are intrinsics; compilation of the generated Go file is not checked; lines/names of other lengths are outside the bound.",
    tech="symbolic execution of go/ssa with symbolic regexp matcher + SMT, replay with the real binary"),
  "C01": dict(cat="translation_validation", ref="§4 C01",
-   text="Translation validation: a generated corpus of subset programs (one translation rule or rule×context per function; compositions and if-trees in thorough) is translated by the real goose binary built from the working tree; the emitted .v is parsed and loaded by a GooseLang model; for every function the Go SSA and the GooseLang definition are evaluated on the same symbolic arguments (all values of uint64/uint32/byte/bool, short strings, slices incl. nil and spare capacity, pointers to structs, maps) and z3 is asked for an argument vector on which goose rejected the program, GooseLang is stuck, or result / reachable state differ. The program dimension is enumerated, the input dimension is decided by the solver. Found: byte(x) not truncated and non-tail bare blocks leaking bindings (fixed); x++ on 32/8-bit variables and loop variables leaking after the loop (known findings pinned by gold files).",
+   text="Translation validation: a generated corpus of subset programs (one translation rule or rule×context per function; compositions and if-trees in thorough) plus grammar-derived programs with fixed seeds (160 functions in quick, 1600 in thorough: nested control flow, loops, bindings, stores, helper calls; program sampled, inputs symbolic) is translated by the real goose binary built from the working tree; the emitted .v is parsed and loaded by a GooseLang model; for every function the Go SSA and the GooseLang definition are evaluated on the same symbolic arguments (all values of uint64/uint32/byte/bool, short strings, slices incl. nil and spare capacity, pointers to structs, maps) and z3 is asked for an argument vector on which goose rejected the program, GooseLang is stuck, or result / reachable state differ. The program dimension is enumerated, the input dimension is decided by the solver. Found: byte(x) not truncated and non-tail bare blocks leaking bindings (fixed); x++ on 32/8-bit variables and loop variables leaking after the loop (known findings pinned by gold files).",
    note="Trusted: the GooseLang model in gl/ (Perennial is not in the sandbox; calibrated: agrees with Go on all 89 non-failing semantics tests and disagrees on exactly the 7 failing_ ones), go/ssa, gosym, z3. Outside: programs outside the generator's grammar, larger aggregates, argument side effects, paths on which Go panics.",
    tech="translation validation: symbolic execution of Go SSA vs GooseLang evaluator + SMT (z3)"),
  "C02": dict(cat="translation_validation", ref="§4 C02",
-   text="Same pipeline on a catalogue of ~130 out-of-subset / look-alike constructs (assignment operators, operators, slice forms, literals, statement kinds, control-flow shapes, integer types, interface uses, extra builtin arguments, user functions named like builtins), one per host function; per declaration the obligation is the property's disjunction: goose reports a conversion error located in that declaration, or the emitted definition is equivalent to Go on all inputs within the C01 bounds; a goose crash or malformed output satisfies neither (a crashing package is split to isolate the declaration). Found and fixed 8 defects (builtins recognised by spelling, multi-argument append, string slicing crash, copy from string, variadic calls, interface{} printed as a Definition, comma-ok type assertion, parameterless method values); 1 known finding.",
+   text="Same pipeline on a catalogue of ~130 out-of-subset / look-alike constructs (assignment operators, operators, slice forms, literals, statement kinds, control-flow shapes, integer types, interface uses, extra builtin arguments, user functions named like builtins), one per host function, plus random subset programs with one of 47 out-of-subset constructs injected at a random statement position (150 in quick, 1500 in thorough, fixed seeds); per declaration the obligation is the property's disjunction: goose reports a conversion error located in that declaration, or the emitted definition is equivalent to Go on all inputs within the C01 bounds; a goose crash or malformed output satisfies neither (a crashing package is split to isolate the declaration). Found and fixed 8 defects (builtins recognised by spelling, multi-argument append, string slicing crash, copy from string, variadic calls, interface{} printed as a Definition, comma-ok type assertion, parameterless method values); 1 known finding.",
    note="As C01. User packages named like FFI packages are not covered (the emitted text is identical; only Coq's name resolution differs).",
    tech="translation validation: symbolic execution of Go SSA vs GooseLang evaluator + SMT (z3)"),
  "C03": dict(cat="translation_validation", ref="§4 C03",
